@@ -52,7 +52,7 @@ def applyStep (A : Mat n n K) : Gen.Isomap.Step → Mat n n K
   | .scale num den => fun i j => A i j * (((num : Int) : K) / ((den : Nat) : K))
 
 /-- the matrix `IsomapImplementation::embed` hands to `eigendecomposition_via`: the generated statement list
-    (as written: `.array().square()`, `centerMatrix`, `.array() *= -0.5`) applied to the geodesic matrix -/
+    (as written: `.array().square()`, `(m + mᵀ)/2`, `centerMatrix`, `.array() *= -0.5`) applied to the geodesic matrix -/
 def isomapPre (D : Mat n n K) : Mat n n K := Gen.Isomap.isomapSteps.foldl applyStep D
 
 /-- what the dense eigensolver decomposes: `(A + Aᵀ)/2` if `eigendecomposition_impl_dense` symmetrises -/
